@@ -15,6 +15,11 @@ creation) only in the correspondence driver.  The bank is reduced to plain accou
 covers the amount"): send restrictions (markers, quarantine, sanctions) and vesting locks on
 the fee payer / recipients are outside the model.
 
+Histories: every theorem here is for an ARBITRARY state `s` — in particular the state any
+sequence of earlier transactions left; the mempool theorems take independent admission /
+recheck / execution states.  `PvProofs.C08Seq` composes them over sequences of transactions
+(`runTxs`), several of one payer included.
+
 Reading guide (R = `deliverTx cfg tx s`, the model of `runTx` in a block):
 * `R.outcome = .rejected e` — the ante handler failed, nothing is written;
 * `R.outcome = .failed e`   — messages or the end-of-tx sweep failed, only the ante branch is written;
@@ -24,6 +29,7 @@ produced from it, `R.final` the state after the sweep (`MsgFeeInvoker.Invoke`).
 -/
 import PvProofs.Lemmas.TxfeeRun
 import PvProofs.Lemmas.TxfeeGov
+import PvProofs.Lemmas.TxfeeForest
 
 namespace PvProofs.C08
 open PvModel PvModel.Txfee PvModel.Fees PvProofs.TxfeeL
@@ -96,7 +102,9 @@ theorem baseFee_amount (floor : Coin) (gas : Nat) (d : Denom) :
   · simp [hz]
   · simp [hz]
 
-/-- A transaction the ante handler rejects in the block changes nothing at all. -/
+/-- A transaction the ante handler rejects in the block changes nothing at all.  (One call: the
+model of `runTx` returns the state it was given.  Over the whole chain state — every account's
+sequence, every allowance — and inside any sequence: `PvProofs.C08Seq.seq_rejected_tx_changes_nothing`.) -/
 theorem rejected_tx_changes_nothing (cfg : Cfg) (tx : Tx) (s : St) (e : Err)
     (h : (deliverTx cfg tx s).outcome = .rejected e) :
     (deliverTx cfg tx s).final.ledger = s.ledger ∧ (deliverTx cfg tx s).final.seq = s.seq := by
@@ -235,7 +243,10 @@ theorem uncovered_fee_never_succeeds (cfg : Cfg) (tx : Tx) (s : St)
   omega
 
 /-- A routed message incurs its fees wherever it sits in the step list — in particular when it
-was dispatched from inside a `MsgExec` (the router sees it like any other). -/
+was dispatched from inside a `MsgExec` (the router sees it like any other).  (Additivity of the
+sum only; what the step list of a NESTED body is, and that its fees are those of the tree's
+messages, is `flatten_routes_exactly_the_tree` / `flattened_fees_are_the_tree_fees` /
+`tree_tx_nested_fees_covered_or_fail` below.) -/
 theorem nested_message_fees_are_incurred (cfg : Cfg) (pre post : List Step) (m : RMsg) (d : Denom) :
     totalIncurred d (stepsIncurred cfg (pre ++ .route m :: post)) =
       totalIncurred d (stepsIncurred cfg pre) + totalIncurred d (incurredOf cfg m) +
@@ -244,10 +255,82 @@ theorem nested_message_fees_are_incurred (cfg : Cfg) (pre post : List Step) (m :
   | nil => simp [stepsIncurred, stepIncurred, totalIncurred_append, totalIncurred]
   | cons s rest ih => simp only [List.cons_append, stepsIncurred, totalIncurred_append, ih]; omega
 
+/-! ### Nested messages: the body as a tree
+
+The step lists above are what the router sees.  A transaction body is a `Forest` of messages
+(authz `MsgExec` dispatching inner messages, to any depth, through the same router);
+`Forest.flatten` is the order in which the router and the handlers act on it (fees of a message
+consumed BEFORE its handler runs: `PvProofs.C08Facts.router_consumes_fees_before_handler`), and
+the correspondence driver builds `tx.steps` / `tx.top` as `flatten` / `roots` of the parsed body.
+`forestIncurred` says, over the TREE, what is owed: the fees of ALL its messages plus the
+handler-level ones. -/
+
+/-- The router routes exactly the messages of the tree — every one of them, nested ones
+included, once, in pre-order — and nothing else. -/
+theorem flatten_routes_exactly_the_tree (f : Forest) (hwf : f.wf = true) :
+    routed f.flatten = f.allMsgs := flatten_routed f hwf
+
+/-- **The fee list of a nested body is the flattening of the tree's messages.**  What the
+flattened run incurs is, per denom, the fees of the ROOT messages (all the mempool check sees)
+plus the fees of every NESTED message at any depth plus the handler-level fees; and every
+recipient — and the recipients as a whole — is owed exactly what the tree says. -/
+theorem flattened_fees_are_the_tree_fees (cfg : Cfg) (f : Forest) (a : Addr) (d : Denom) :
+    totalIncurred d (stepsIncurred cfg f.flatten) =
+      totalIncurred d (topIncurred cfg f.roots) + totalIncurred d (topIncurred cfg f.nested) +
+        totalIncurred d (stepsIncurred cfg f.handlerSteps) ∧
+    owedTo a d (stepsIncurred cfg f.flatten) = owedTo a d (forestIncurred cfg f) ∧
+    owedRecipients d (stepsIncurred cfg f.flatten) = owedRecipients d (forestIncurred cfg f) := by
+  refine ⟨?_, forest_sum _ (owedTo_append a d) cfg f, forest_sum _ (owedRecipients_append d) cfg f⟩
+  rw [forest_sum _ (totalIncurred_append d) cfg f]
+  unfold forestIncurred
+  rw [totalIncurred_append, sum_roots_nested _ (by rfl) (totalIncurred_append d) cfg f]
+
+/-- **Nested fees are covered by the declared fee or the transaction fails.**  A transaction
+whose body is the tree `f` and that succeeds declared, per denom, at least floor × gas + the fees
+of its root messages + the fees of EVERY nested message + the handler-level fees. -/
+theorem tree_tx_nested_fees_covered_or_fail (cfg : Cfg) (tx : Tx) (s : St) (f : Forest)
+    (hs : tx.steps = f.flatten) (hc : cfg.collector ≠ "") (hwf : StepsWf tx.steps)
+    (h : (deliverTx cfg tx s).outcome = .ok) (d : Denom) :
+    Coins.amountOf (baseFee cfg.floor tx.gas) d +
+      (totalIncurred d (topIncurred cfg f.roots) + totalIncurred d (topIncurred cfg f.nested) +
+        totalIncurred d (stepsIncurred cfg f.handlerSteps)) ≤ Coins.amountOf tx.fee d := by
+  have := additional_fees_covered_or_fail cfg tx s hc hwf h d
+  rw [hs, (flattened_fees_are_the_tree_fees cfg f "" d).1] at this
+  exact this
+
+/-- … in particular the fees of each single message of the tree, however deeply nested, on top
+of the base fee. -/
+theorem tree_tx_every_message_covered_or_fail (cfg : Cfg) (tx : Tx) (s : St) (f : Forest)
+    (hs : tx.steps = f.flatten) (hf : f.wf = true) (hc : cfg.collector ≠ "") (hwf : StepsWf tx.steps)
+    (h : (deliverTx cfg tx s).outcome = .ok) (m : RMsg) (hm : m ∈ f.allMsgs) (d : Denom) :
+    Coins.amountOf (baseFee cfg.floor tx.gas) d + totalIncurred d (incurredOf cfg m) ≤
+      Coins.amountOf tx.fee d := by
+  have h1 := additional_fees_covered_or_fail cfg tx s hc hwf h d
+  have h2 := routed_message_fee_le_total cfg tx.steps hwf m
+    (by rw [hs, flatten_routes_exactly_the_tree f hf]; exact hm) d
+  omega
+
+/-- **… and is paid to its configured recipient and the collector, nothing lost**: on success the
+fee-related change of every account is the one the TREE prescribes — the declared fee from the
+paying account, to each recipient `⌊fee·bips/10000⌋` for every message of the tree (nested
+included) naming it, the rest to the collector. -/
+theorem tree_tx_success_distribution (cfg : Cfg) (tx : Tx) (s : St) (f : Forest)
+    (hs : tx.steps = f.flatten) (hc : cfg.collector ≠ "") (hwf : StepsWf tx.steps)
+    (h : (deliverTx cfg tx s).outcome = .ok) (a : Addr) (d : Denom) :
+    ((deliverTx cfg tx s).afterAnte.ledger.bal a d - s.ledger.bal a d) +
+      ((deliverTx cfg tx s).final.ledger.bal a d - (deliverTx cfg tx s).afterMsgs.bal a d) =
+    feeDeltaOnSuccess cfg.collector tx.from tx.fee (forestIncurred cfg f) a d := by
+  rw [successful_tx_charges_declared_fee cfg tx s hc hwf h a d, hs]
+  unfold feeDeltaOnSuccess
+  rw [(flattened_fees_are_the_tree_fees cfg f a d).2.1, (flattened_fees_are_the_tree_fees cfg f a d).2.2]
+
 /-! ### Mempool admission -/
 
 /-- **rejected_by_mempool_never_charged.**  A transaction `CheckTx` rejects leaves the mempool
-state untouched (no balance, allowance or sequence change). -/
+state untouched (no balance, allowance or sequence change).  (One call: `checkTx` returns the
+state it was given.  WHICH transactions are refused: `under_declared_fee_is_rejected`,
+`fee_rejection_iff`; over a history of arrivals on the mempool's whole state:
+`PvProofs.C08Seq.mempool_charges_only_admitted_txs`.) -/
 theorem mempool_reject_never_charged (cfg : Cfg) (tx : Tx) (s : St) (e : Err)
     (h : (checkTx cfg tx s).2 = some e) : (checkTx cfg tx s).1 = s := by
   unfold checkTx at h ⊢
@@ -261,57 +344,91 @@ it is charged the base fee (failure) or the declared fee (success). -/
 theorem admitted_tx_is_charged (cfg : Cfg) (tx : Tx) (s : St)
     (h : (checkTx cfg tx s).2 = none) (hg : tx.oogAnte = false) :
     ∀ e, (deliverTx cfg tx s).outcome ≠ .rejected e := by
-  intro e hrej
   unfold checkTx at h
   cases hC : anteHandle cfg tx true s with
   | error e' => simp [hC] at h
   | ok p =>
-    have hD : ∃ q, anteHandle cfg tx false s = .ok q := by
-      unfold anteHandle at hC ⊢
-      simp only [hg, Bool.false_eq_true, if_false, false_and] at hC ⊢
-      split_ifs at hC ⊢ <;>
-      (cases hcd : checkDeductBaseFee cfg tx s with
-       | error e' => simp [hcd] at hC
-       | ok q => first | exact ⟨_, rfl⟩ | simp [hcd] at hC)
-    obtain ⟨q, hq⟩ := hD
-    unfold deliverTx at hrej
-    simp only [hq] at hrej
-    split_ifs at hrej
-    split at hrej
-    · simp at hrej
-    · split at hrej <;> simp at hrej
+    obtain ⟨q, hq⟩ := ante_check_ok_imp_deliver_ok hC hg
+    exact not_rejected_of_ante_ok hq
+
+/-- The recheck case: a transaction that SURVIVED THE RECHECK under the configuration `cfg'` then
+in force (not the one it was admitted under) passes the ante handler when delivered under `cfg'`
+on the rechecked state: it is charged the base fee of `cfg'` (failure) or its declared fee
+(success), never executed for free. -/
+theorem rechecked_tx_is_charged (cfg' : Cfg) (tx : Tx) (s : St)
+    (h : (recheckTx cfg' tx s).2 = none) (hg : tx.oogAnte = false) :
+    ∀ e, (deliverTx cfg' tx s).outcome ≠ .rejected e := by
+  unfold recheckTx checkTx at h
+  cases hC : anteHandle cfg' { tx with oogCheck := tx.oogRecheck } true s with
+  | error e' => simp [hC] at h
+  | ok p =>
+    obtain ⟨q, hq⟩ := ante_check_ok_imp_deliver_ok hC hg
+    have hq' : anteHandle cfg' tx false s = .ok q := hq
+    exact not_rejected_of_ante_ok hq'
+
+/-- Admission is, among other things, the fee sufficiency test of `MsgFeesDecorator` — a
+function of the configuration and the transaction ALONE (it never reads the state). -/
+theorem admitted_passes_fee_check (cfg : Cfg) (tx : Tx) (s0 : St)
+    (h : (checkTx cfg tx s0).2 = none) : msgFeesDecorator cfg tx = true := by
+  unfold checkTx at h
+  cases hC : anteHandle cfg tx true s0 with
+  | error e' => simp [hC] at h
+  | ok p =>
+    by_contra hne
+    simp only [anteHandle, if_true, true_and, hne, not_false_eq_true] at hC
+    split_ifs at hC
+
+/-- … and the recheck is the same test under the configuration then in force. -/
+theorem rechecked_passes_fee_check (cfg' : Cfg) (tx : Tx) (s1 : St)
+    (h : (recheckTx cfg' tx s1).2 = none) : msgFeesDecorator cfg' tx = true :=
+  admitted_passes_fee_check cfg' { tx with oogCheck := tx.oogRecheck } s1 h
+
+/-- What the fee sufficiency test guarantees, with no state in sight: the declared fee (a valid,
+non-negative coin set) covers, per denom, the base fee plus the additional fees of all TOP-LEVEL
+messages. -/
+theorem fee_check_covers_base_and_top_level (cfg : Cfg) (tx : Tx)
+    (hfee : ∀ d, 0 ≤ Coins.amountOf tx.fee d) (hm : msgFeesDecorator cfg tx = true) (d : Denom) :
+    Coins.amountOf (baseFee cfg.floor tx.gas) d + totalIncurred d (topIncurred cfg tx.top) ≤
+      Coins.amountOf tx.fee d := by
+  unfold msgFeesDecorator at hm
+  split at hm
+  · cases hm
+  · rename_i D hD
+    have hacc := calc_list_acct tx.top dacct_empty hD
+    simp only [List.nil_append] at hacc
+    unfold ensureSufficientFloorAndMsgFees at hm
+    simp only [Bool.or_eq_true] at hm
+    unfold topIncurred
+    rw [← hacc.total d]
+    rcases hm with hz | hcov
+    · have := isZero_iff.mp hz d
+      simp only [Coins.amountOf_append] at this
+      have := hfee d; omega
+    · have := covers_all hfee hcov d
+      simpa using this
 
 /-- What the mempool check guarantees: the declared fee (a valid, non-negative coin set) covers,
-per denom, the base fee plus the additional fees of all TOP-LEVEL messages. Hence a failed
-admitted transaction (charged the base fee) is never charged more than it declared. -/
+per denom, the base fee plus the additional fees of all TOP-LEVEL messages — whatever the state
+`s` it was admitted on. Hence a failed admitted transaction (charged the base fee) is never
+charged more than it declared. -/
 theorem admitted_fee_covers_base_and_top_level (cfg : Cfg) (tx : Tx) (s : St)
     (hfee : ∀ d, 0 ≤ Coins.amountOf tx.fee d)
     (h : (checkTx cfg tx s).2 = none) (d : Denom) :
     Coins.amountOf (baseFee cfg.floor tx.gas) d + totalIncurred d (tx.top.flatMap (incurredOf cfg)) ≤
+      Coins.amountOf tx.fee d :=
+  fee_check_covers_base_and_top_level cfg tx hfee (admitted_passes_fee_check cfg tx s h) d
+
+/-- The mempool check sees the ROOTS of the tree only: admission (on any state) guarantees floor ×
+gas + the root messages' fees; the nested messages' fees are enforced at execution
+(`tree_tx_nested_fees_covered_or_fail`) — an under-declaring nested transaction is admitted, fails
+and pays the base fee (`Examples`). -/
+theorem tree_tx_mempool_sees_roots_only (cfg : Cfg) (tx : Tx) (s0 : St) (f : Forest)
+    (ht : tx.top = f.roots) (hfee : ∀ d, 0 ≤ Coins.amountOf tx.fee d)
+    (h : (checkTx cfg tx s0).2 = none) (d : Denom) :
+    Coins.amountOf (baseFee cfg.floor tx.gas) d + totalIncurred d (topIncurred cfg f.roots) ≤
       Coins.amountOf tx.fee d := by
-  unfold checkTx at h
-  cases hC : anteHandle cfg tx true s with
-  | error e' => simp [hC] at h
-  | ok p =>
-    have hm : msgFeesDecorator cfg tx = true := by
-      by_contra hne
-      simp only [anteHandle, if_true, true_and, hne, not_false_eq_true] at hC
-      split_ifs at hC
-    unfold msgFeesDecorator at hm
-    split at hm
-    · cases hm
-    · rename_i D hD
-      have hacc := calc_list_acct tx.top dacct_empty hD
-      simp only [List.nil_append] at hacc
-      unfold ensureSufficientFloorAndMsgFees at hm
-      simp only [Bool.or_eq_true] at hm
-      rw [← hacc.total d]
-      rcases hm with hz | hcov
-      · have := isZero_iff.mp hz d
-        simp only [Coins.amountOf_append] at this
-        have := hfee d; omega
-      · have := covers_all hfee hcov d
-        simpa using this
+  rw [← ht]
+  exact fee_check_covers_base_and_top_level cfg tx hfee (admitted_passes_fee_check cfg tx s0 h) d
 
 /-- … in particular the base fee alone never exceeds the declared fee of an admitted transaction. -/
 theorem admitted_base_fee_le_declared (cfg : Cfg) (tx : Tx) (s : St)
@@ -350,17 +467,66 @@ theorem admitted_mempool_state_charged_base (cfg : Cfg) (tx : Tx) (s : St)
     obtain ⟨_, _, h3, h4, _, _⟩ := ante_spec hC
     exact ⟨h4, h3⟩
 
-/-- **never more than declared**, failure side: an admitted transaction that fails in the block
-costs the paying account (when it is not the collector itself) at most its declared fee. -/
-theorem failed_admitted_tx_never_overcharged (cfg : Cfg) (tx : Tx) (s : St) (e : Err)
-    (hfee : ∀ d, 0 ≤ Coins.amountOf tx.fee d) (hadm : (checkTx cfg tx s).2 = none)
+/-- The mempool check answers "insufficient fee" exactly when the fee sufficiency test fails
+(and the gas observations / gas limit let it be reached) — a condition on the configuration and
+the transaction only. -/
+theorem fee_rejection_iff (cfg : Cfg) (tx : Tx) (s : St) :
+    (checkTx cfg tx s).2 = some .fee ↔
+      (tx.oogCheck = false ∧ tx.gas ≤ gasTxLimit ∧ msgFeesDecorator cfg tx = false) := by
+  unfold checkTx anteHandle
+  simp only [if_true, true_and]
+  by_cases h1 : tx.oogCheck = true
+  · simp [h1]
+  · by_cases h2 : tx.gas > gasTxLimit
+    · simp [h1, h2]
+    · by_cases h3 : msgFeesDecorator cfg tx = true
+      · simp only [h1, h2, h3, not_true_eq_false, if_false, Bool.false_eq_true]
+        cases hcd : checkDeductBaseFee cfg tx s with
+        | error e =>
+          have := checkDeduct_err_ne_fee hcd
+          simp [this]
+        | ok p =>
+          simp only []
+          split_ifs <;> simp
+      · simp [h1, h2, h3]; omega
+
+/-- **The fee verdict of the mempool check does not depend on the state.**  Whether `CheckTx`
+answers "insufficient fee" is the same on every state: on the mempool state when the transaction
+arrives, on the state committed before a recheck, on the state of the block that executes it.
+(What DOES depend on the state — funds for the base fee, the allowance, the sequence — is checked
+again by the ante handler in the block.) -/
+theorem fee_rejection_is_state_independent (cfg : Cfg) (tx : Tx) (s0 s : St) :
+    (checkTx cfg tx s0).2 = some .fee ↔ (checkTx cfg tx s).2 = some .fee := by
+  rw [fee_rejection_iff, fee_rejection_iff]
+
+/-- **never more than declared**, failure side, ACROSS STATES: a transaction admitted by the
+mempool check on ANY state `s0` (the mempool state when it arrived) that is executed on ANY state
+`s` (whatever the transactions and blocks in between did to balances, allowances and sequences)
+and fails costs the paying account (when it is not the collector itself) at most its declared
+fee.  The fee test reads the configuration and the transaction only, so nothing relates `s0` to `s`. -/
+theorem failed_admitted_tx_never_overcharged (cfg : Cfg) (tx : Tx) (s0 s : St) (e : Err)
+    (hfee : ∀ d, 0 ≤ Coins.amountOf tx.fee d) (hadm : (checkTx cfg tx s0).2 = none)
     (h : (deliverTx cfg tx s).outcome = .failed e) (hsrc : tx.from ≠ cfg.collector) (d : Denom) :
     s.ledger.bal tx.from d - Coins.amountOf tx.fee d ≤ (deliverTx cfg tx s).final.ledger.bal tx.from d := by
   obtain ⟨h1, _, _, _⟩ := failed_tx_charges_base_fee_only cfg tx s e h
   rw [h1 tx.from d]
   unfold feeDeltaOnFailure
-  have := admitted_base_fee_le_declared cfg tx s hfee hadm d
+  have := admitted_base_fee_le_declared cfg tx s0 hfee hadm d
   simp [hsrc]
+  omega
+
+/-- … the recheck variant: the transaction survived `CheckTx(Recheck)` under `cfg'` on ANY
+committed state `s1` and is executed under `cfg'` on ANY state `s`. -/
+theorem failed_rechecked_tx_never_overcharged (cfg' : Cfg) (tx : Tx) (s1 s : St) (e : Err)
+    (hfee : ∀ d, 0 ≤ Coins.amountOf tx.fee d) (hre : (recheckTx cfg' tx s1).2 = none)
+    (h : (deliverTx cfg' tx s).outcome = .failed e) (hsrc : tx.from ≠ cfg'.collector) (d : Denom) :
+    s.ledger.bal tx.from d - Coins.amountOf tx.fee d ≤ (deliverTx cfg' tx s).final.ledger.bal tx.from d := by
+  obtain ⟨h1, _, _, _⟩ := failed_tx_charges_base_fee_only cfg' tx s e h
+  rw [h1 tx.from d]
+  unfold feeDeltaOnFailure
+  have := admitted_base_fee_le_declared cfg' { tx with oogCheck := tx.oogRecheck } s1 hfee hre d
+  simp [hsrc]
+  simp at this
   omega
 
 /-! ### The mempool recheck: a change of the fee schedule between admission and execution
@@ -370,7 +536,9 @@ after each commit.  `recheckTx` models it, `life` the whole history: admission u
 committed block setting `cfg'`, recheck on the committed state, execution under `cfg'` if the
 transaction is still in the mempool. -/
 
-/-- A transaction the recheck evicts leaves the mempool state untouched: never charged. -/
+/-- A transaction the recheck evicts leaves the mempool state untouched: never charged.  (One
+call, as `mempool_reject_never_charged`; the substance is in `under_declared_fee_is_rejected`,
+`evicted_tx_never_executed` and `PvProofs.C08Seq.mempool_charges_only_admitted_txs`.) -/
 theorem recheck_reject_never_charged (cfg : Cfg) (tx : Tx) (s : St) (e : Err)
     (h : (recheckTx cfg tx s).2 = some e) : (recheckTx cfg tx s).1 = s :=
   mempool_reject_never_charged cfg _ s e h
@@ -414,17 +582,19 @@ theorem under_declared_fee_is_rejected (cfg : Cfg) (tx : Tx) (s : St)
     | some e => exact mempool_reject_never_charged cfg tx' s e he
   exact ⟨key tx rfl rfl rfl, key { tx with oogCheck := tx.oogRecheck } rfl rfl rfl⟩
 
-/-- What "executed from the mempool" means in `life` (no forced inclusion): the run is the
-delivery on the committed state under the configuration in force at execution, and the
-transaction passed every mempool check it went through — so every single-transaction theorem
-above applies to it with that configuration. -/
-theorem life_run_spec (cfg cfg' : Cfg) (re : Bool) (tx : Tx) (s : St) (r : Run)
-    (hr : (life cfg cfg' re false tx s).run = some r) :
-    (checkTx cfg tx s).2 = none ∧
+/-- What "executed from the mempool" means in `life` (no forced inclusion), for INDEPENDENT
+admission state `s0`, recheck state `s1` and execution state `s`: the run is the delivery on `s`
+under the configuration in force at execution, and the transaction passed every mempool check it
+went through — each on its own state.  (Unfolds the definition; the substance is in the theorems
+that use it: `evicted_tx_never_executed`, `mempool_tx_never_charged_more_than_declared`,
+`mempool_tx_failure_cost`.) -/
+theorem life_run_spec (cfg cfg' : Cfg) (re : Bool) (tx : Tx) (s0 s1 s : St) (r : Run)
+    (hr : (life cfg cfg' re false tx s0 s1 s).run = some r) :
+    (checkTx cfg tx s0).2 = none ∧
     ((re = false ∧ r = deliverTx cfg tx s) ∨
-     (re = true ∧ r = deliverTx cfg' tx s ∧ (recheckTx cfg' tx s).2 = none)) := by
+     (re = true ∧ r = deliverTx cfg' tx s ∧ (recheckTx cfg' tx s1).2 = none)) := by
   unfold life at hr
-  cases hc : (checkTx cfg tx s) with
+  cases hc : (checkTx cfg tx s0) with
   | mk cs cerr =>
     simp only [hc] at hr
     cases cerr with
@@ -434,54 +604,71 @@ theorem life_run_spec (cfg cfg' : Cfg) (re : Bool) (tx : Tx) (s : St) (r : Run)
       cases re with
       | false => simp at hr; exact Or.inl ⟨rfl, hr.symm⟩
       | true =>
-        cases hrc : (recheckTx cfg' tx s) with
+        cases hrc : (recheckTx cfg' tx s1) with
         | mk rs rerr =>
           simp only [hrc, if_true] at hr
           cases rerr with
           | some e => simp at hr
           | none => simp at hr; exact Or.inr ⟨rfl, hr.symm, rfl⟩
 
-/-- A transaction evicted by the recheck is not executed and was never charged. -/
-theorem evicted_tx_never_executed (cfg cfg' : Cfg) (tx : Tx) (s : St) (e : Err)
-    (hadm : (checkTx cfg tx s).2 = none) (hev : (recheckTx cfg' tx s).2 = some e) :
-    (life cfg cfg' true false tx s).run = none ∧ (life cfg cfg' true false tx s).inMempool = false ∧
-    (life cfg cfg' true false tx s).recheckSt = s := by
-  have hst := recheck_reject_never_charged cfg' tx s e hev
+/-- A transaction evicted by the recheck is not executed — on whatever state a block would have
+run it — and the recheck charged nothing. -/
+theorem evicted_tx_never_executed (cfg cfg' : Cfg) (tx : Tx) (s0 s1 s : St) (e : Err)
+    (hadm : (checkTx cfg tx s0).2 = none) (hev : (recheckTx cfg' tx s1).2 = some e) :
+    (life cfg cfg' true false tx s0 s1 s).run = none ∧ (life cfg cfg' true false tx s0 s1 s).inMempool = false ∧
+    (life cfg cfg' true false tx s0 s1 s).recheckSt = s1 := by
+  have hst := recheck_reject_never_charged cfg' tx s1 e hev
   unfold life
-  cases hc : (checkTx cfg tx s) with
+  cases hc : (checkTx cfg tx s0) with
   | mk cs cerr =>
     rw [hc] at hadm
     simp only at hadm
     subst hadm
-    cases hrc : (recheckTx cfg' tx s) with
+    cases hrc : (recheckTx cfg' tx s1) with
     | mk rs rerr =>
       rw [hrc] at hev hst
       simp only at hev hst
       subst hev
       simp [hst]
 
-/-- **never more than declared**, over the whole mempool history: whatever configuration the
-transaction was admitted under and whatever the committed block changed it to, a transaction
-executed from the mempool that fails costs the paying account at most its declared fee (it costs
-exactly floor × gas under the configuration in force at execution, by
-`failed_tx_charges_base_fee_only`; on success exactly the declared fee, by
-`successful_tx_charges_declared_fee`). -/
-theorem mempool_tx_never_charged_more_than_declared (cfg cfg' : Cfg) (re : Bool) (tx : Tx) (s : St)
+/-- **never more than declared**, over the whole mempool history: admitted on ANY mempool state
+`s0` under `cfg`, (optionally) rechecked on ANY committed state `s1` under whatever `cfg'` a
+committed block changed the configuration to, executed on ANY state `s` — a transaction executed
+from the mempool that fails costs the paying account at most its declared fee (it costs exactly
+floor × gas under the configuration in force at execution, by `failed_tx_charges_base_fee_only`;
+on success exactly the declared fee, by `successful_tx_charges_declared_fee`). -/
+theorem mempool_tx_never_charged_more_than_declared (cfg cfg' : Cfg) (re : Bool) (tx : Tx) (s0 s1 s : St)
     (r : Run) (e : Err) (hfee : ∀ d, 0 ≤ Coins.amountOf tx.fee d)
     (hsrc : tx.from ≠ cfg.collector) (hsrc' : tx.from ≠ cfg'.collector)
-    (hr : (life cfg cfg' re false tx s).run = some r) (hf : r.outcome = .failed e) (d : Denom) :
+    (hr : (life cfg cfg' re false tx s0 s1 s).run = some r) (hf : r.outcome = .failed e) (d : Denom) :
     s.ledger.bal tx.from d - Coins.amountOf tx.fee d ≤ r.final.ledger.bal tx.from d := by
-  obtain ⟨hadm, h | h⟩ := life_run_spec cfg cfg' re tx s r hr
+  obtain ⟨hadm, h | h⟩ := life_run_spec cfg cfg' re tx s0 s1 s r hr
   · obtain ⟨_, rfl⟩ := h
-    exact failed_admitted_tx_never_overcharged cfg tx s e hfee hadm hf hsrc d
+    exact failed_admitted_tx_never_overcharged cfg tx s0 s e hfee hadm hf hsrc d
   · obtain ⟨_, rfl, hre⟩ := h
-    obtain ⟨h1, _, _, _⟩ := failed_tx_charges_base_fee_only cfg' tx s e hf
-    rw [h1 tx.from d]
-    unfold feeDeltaOnFailure
-    have := admitted_base_fee_le_declared cfg' { tx with oogCheck := tx.oogRecheck } s hfee hre d
-    simp [hsrc']
-    simp at this
-    omega
+    exact failed_rechecked_tx_never_overcharged cfg' tx s1 s e hfee hre hf hsrc' d
+
+/-- The exact cost of a failure over the mempool history: whatever the admission and recheck
+states were, the execution state `s` changes by exactly the base fee of the configuration IN
+FORCE AT EXECUTION moving from the paying account to the collector, plus the payer's sequence;
+and that base fee is at most the declared fee in every denom. -/
+theorem mempool_tx_failure_cost (cfg cfg' : Cfg) (re : Bool) (tx : Tx) (s0 s1 s : St)
+    (r : Run) (e : Err) (hfee : ∀ d, 0 ≤ Coins.amountOf tx.fee d)
+    (hr : (life cfg cfg' re false tx s0 s1 s).run = some r) (hf : r.outcome = .failed e) :
+    ∃ cx : Cfg, (cx = if re then cfg' else cfg) ∧
+      (∀ a d, r.final.ledger.bal a d =
+        s.ledger.bal a d + feeDeltaOnFailure cx.collector tx.from (baseFee cx.floor tx.gas) a d) ∧
+      r.final.seq = s.seq + 1 ∧
+      (∀ d, Coins.amountOf (baseFee cx.floor tx.gas) d ≤ Coins.amountOf tx.fee d) := by
+  obtain ⟨hadm, h | h⟩ := life_run_spec cfg cfg' re tx s0 s1 s r hr
+  · obtain ⟨hre, rfl⟩ := h
+    obtain ⟨h1, _, h3, _⟩ := failed_tx_charges_base_fee_only cfg tx s e hf
+    exact ⟨cfg, by simp [hre], h1, h3, admitted_base_fee_le_declared cfg tx s0 hfee hadm⟩
+  · obtain ⟨hre, rfl, hrc⟩ := h
+    obtain ⟨h1, _, h3, _⟩ := failed_tx_charges_base_fee_only cfg' tx s e hf
+    refine ⟨cfg', by simp [hre], h1, h3, fun d => ?_⟩
+    have := admitted_base_fee_le_declared cfg' { tx with oogCheck := tx.oogRecheck } s1 hfee hrc d
+    simpa using this
 
 /-! ### Fee grants -/
 
@@ -786,18 +973,49 @@ example : (deliverTx exCfg { exTx with granter := some "G" } exStG).outcome.isOk
 -- the mempool history: admitted with the fee exactly at what `exCfg` requires; a committed block
 -- raises the floor price from 2 to 3: the recheck evicts it, it is not executed, never charged
 def exCfgUp : Cfg := { exCfg with floor := ("nhash", 3) }
-example : (life exCfg exCfgUp true false exTx exSt).check.isNone = true ∧
-    (life exCfg exCfgUp true false exTx exSt).recheck = some (some .fee) ∧
-    (life exCfg exCfgUp true false exTx exSt).inMempool = false ∧
-    (life exCfg exCfgUp true false exTx exSt).run.isNone = true := by decide
+example : (life exCfg exCfgUp true false exTx exSt exSt exSt).check.isNone = true ∧
+    (life exCfg exCfgUp true false exTx exSt exSt exSt).recheck = some (some .fee) ∧
+    (life exCfg exCfgUp true false exTx exSt exSt exSt).inMempool = false ∧
+    (life exCfg exCfgUp true false exTx exSt exSt exSt).run.isNone = true := by decide
 example : admissible exCfgUp exTx.fee exTx.gas exTx.top ["nhash", "hotdog"] = false := by decide
 -- … lowering it instead keeps it in the mempool and it is executed under the new configuration
 def exCfgDown : Cfg := { exCfg with floor := ("nhash", 1) }
-example : (life exCfg exCfgDown true false exTx exSt).inMempool = true ∧
-    ((life exCfg exCfgDown true false exTx exSt).run.map (·.outcome.isOk)) = some true := by decide
+example : (life exCfg exCfgDown true false exTx exSt exSt exSt).inMempool = true ∧
+    ((life exCfg exCfgDown true false exTx exSt exSt exSt).run.map (·.outcome.isOk)) = some true := by decide
 example : ∀ d, 0 ≤ Coins.amountOf exTx.fee d := by
   intro d; simp only [exTx, Coins.amountOf]; split_ifs <;> omega
 
+
+-- ACROSS STATES: admitted on the mempool state `exSt`; by the time a block executes it other
+-- transactions have run (P has 400 nhash left and sequence 3, X's funds are gone): the inner send
+-- fails, P pays exactly the base fee 200 — on the state of THAT block — and its sequence goes to 4
+def exStLater : St := { ledger := Ledger.entries "P" [("nhash", 400), ("hotdog", 10)], allow := .none, seq := 3 }
+example : (checkTx exCfg exTx exSt).2 = none ∧ (deliverTx exCfg exTx exStLater).outcome.isFailed = true ∧
+    (deliverTx exCfg exTx exStLater).final.ledger.bal "P" "nhash" = 400 - 200 ∧
+    (deliverTx exCfg exTx exStLater).final.seq = 4 := by decide
+-- … the whole history on three different states: admitted on `exSt` under `exCfg`, rechecked on
+-- `exStMid` under `exCfgDown` (floor price 1), executed on `exStLater`: fails, costs 1 × 100
+def exStMid : St := { ledger := Ledger.entries "P" [("nhash", 700), ("hotdog", 10)], allow := .none, seq := 1 }
+example : (recheckTx exCfgDown exTx exStMid).2 = none ∧
+    ((life exCfg exCfgDown true false exTx exSt exStMid exStLater).run.map (·.outcome.isFailed)) = some true ∧
+    ((life exCfg exCfgDown true false exTx exSt exStMid exStLater).run.map (·.final.ledger.bal "P" "nhash")) = some 300 := by
+  decide
+-- the fee verdict is the same on every state (here: "insufficient fee" on two unrelated states)
+example : (checkTx exCfgUp exTx exSt).2 = some .fee ∧ (checkTx exCfgUp exTx exStLater).2 = some .fee := by decide
+example : exTx.from ≠ exCfg.collector ∧ exTx.from ≠ exCfgDown.collector := by decide
+example : exTx.oogAnte = false := rfl
+
+-- the body of `exTx` as a tree: MsgExec[ MsgSend ] ; MsgAssessCustomMsgFee ; payment
+def exForest : Forest :=
+  .node [] { typ := "exec" } []
+    (.node [] { typ := "send" } [exSend "X" "Q" [("nhash", 5)]] .nil .nil)
+    (.node [] { typ := "assess", assess := some ⟨("usd", 3), "R2", some 5000⟩ } [] .nil
+      (.node [] { typ := "pay" } [.consume "pay" [("nhash", 4)]] .nil .nil))
+example : exForest.wf = true := by decide
+example : exTx.top = exForest.roots := rfl
+example : exTx.steps = exForest.flatten := rfl
+example : exForest.nested.map (·.typ) = ["send"] ∧ exForest.allMsgs.map (·.typ) = ["exec", "send", "assess", "pay"] := by
+  decide
 
 -- governance: a usd-rate update, a refused removal, an added fee; the floor price stays 2nhash
 def exGov : List (List GovMsg) :=
